@@ -2,6 +2,7 @@ from vf import Query
 from props import units_step as US
 from props import step_groups as G
 from props.common import *
+from props.replay_step import REPLAY_STEP
 import slice as S
 
 K_QUICK, K_THOROUGH = 40, 64
@@ -20,7 +21,7 @@ def step_queries():
         defs = [f'H_OPSEL(op)=({opsel})', f'H_N={n}', f'VERIF_STACK_W={max(w, 1)}', f'VERIF_ITEM_CAP={k}'] + extra
         if not any(e.startswith('H_AN=') for e in extra): defs.append('H_AN=0')
         return Query(name, 'harness', unit_step_plain, 'h_step', defines=defs, unwind=max(k + 2, 34), timeout=1500, object_bits=12,
-                     tier=tier, bounded=f'stack element storage {k} bytes (consensus maximum 520); pushes of 521..10000 bytes modelled by length only', functions=FN)
+                     tier=tier, bounded=f'stack element storage {k} bytes (consensus maximum 520); pushes of 521..10000 bytes modelled by length only', functions=FN, replay=REPLAY_STEP)
     NUMERIC = {'unary', 'addsub', 'boolcmp', 'minmax', 'within', 'cltv', 'csv'}
     NOSPLIT = {'push', 'badop', 'smallint', 'nopx', 'disabled_gate'}     # opcode ranges kept symbolic; every other group: one query per opcode byte (a symbolic opcode multiplies the SAT cost)
     for (name, opsel, k, g, extra, bytes_) in G.GROUPS:
@@ -32,8 +33,9 @@ def step_queries():
         if name == 'toalt': w = max(w, 1)
         variants = [(f'step_{name}_{b:02x}', f'op=={b:#x}') for b in bytes_] if name not in NOSPLIT else [(f'step_{name}', opsel)]
         for qn, sel in variants:
-            qs.append(mk(qn, sel, k, w, extra + ['H_EXEC=1'], 'quick', kq))
-            qs.append(mk(f'{qn}_k{kt}', sel, k, w, extra + ['H_EXEC=1'], 'thorough', kt))
+            for q_ in (mk(qn, sel, k, w, extra + ['H_EXEC=1'], 'quick', kq), mk(f'{qn}_k{kt}', sel, k, w, extra + ['H_EXEC=1'], 'thorough', kt)):
+                if name in NUMERIC: q_.backend = 'kissat'   # arithmetic-heavy: the external solver is 2-20x faster here (and slower on the copy-heavy stack shuffles)
+                qs.append(q_)
         # too few operands: exactly j < k items and nothing below
         for j in range(k):
             ex = [e for e in extra if not e.startswith('H_CANARY') and e != 'H_NO_OK'] + ['H_EXEC=1', 'H_BASE0', 'H_NO_OK', 'H_CANARY_ERR']
@@ -51,7 +53,21 @@ def step_queries():
     qs.append(mk('step_unexecuted', 'op<=0xff', 0, 1, ['H_EXEC=0', 'H_CANARY_ERR'], 'quick', K_QUICK))
     return qs
 
-QUERIES = step_queries()
+from props import l2_queries as L
+from props import units_leaf as ULF
+def leaf_queries():
+    FL = ['script/script.cpp: GetScriptOp', 'script/script.cpp: CScript::HasValidOps', 'script/script.cpp: CheckMinimalPush', 'script/interpreter.cpp: CastToBool', 'script/script.h: MAX_OPCODE, MAX_SCRIPT_ELEMENT_SIZE']
+    def q(name, entry, n, k, tier='quick', bounded=None):
+        return Query(name, 'harness', ULF.unit_decode, entry, defines=[f'VERIF_ITEM_CAP={k}', f'VERIF_SCRIPT_CAP={n}', f'H_SCRIPT_N={n}'], unwind=max(n, k) + 4, timeout=1500, object_bits=10, tier=tier, functions=FL, bounded=bounded)
+    return [q('leaf_getscriptop', 'h_getscriptop', 24, 24, bounded='operations whose header and payload lie in a 24-byte window of the script, at any offset (payload bytes compared); longer payloads: leaf_getscriptop_len'),
+            q('leaf_getscriptop_k80', 'h_getscriptop', 84, 84, 'thorough', bounded='84-byte window (covers OP_PUSHDATA1 with 76+ bytes)'),
+            q('leaf_getscriptop_len', 'h_getscriptop_len', 8, 8, bounded='scripts up to 100,000 bytes by length arithmetic (no payload bytes)'),
+            q('leaf_hasvalidops', 'h_hasvalidops', 8, 16, bounded='all scripts of at most 8 bytes (loop over operations: no invariant proof)'),
+            q('leaf_hasvalidops_n11', 'h_hasvalidops', 11, 16, 'thorough', bounded='all scripts of at most 11 bytes'),
+            q('leaf_casttobool', 'h_casttobool', 8, 80, bounded='values of at most 80 bytes (the loop is length-generic; 520 in the thorough tier)'),
+            q('leaf_casttobool_k520', 'h_casttobool', 8, 520, 'thorough'),
+            q('leaf_checkminimalpush', 'h_checkminimalpush', 8, 8)]
+QUERIES = step_queries() + leaf_queries() + [L.END_OF_SCRIPT, L.INSTANCE_STEP, L.CTOR, L.CONTINUE]
 META = {
  'level': 'proof',
  'trusted_base': TRUSTED,
